@@ -30,8 +30,8 @@ example (r : ℝ) :
 
 /-- the executable label of `np.linalg.inv`'s row (exponent −1) over ℝ: non-vacuity of `labelled_leaf_covariant` -/
 example (env : Env) (u u' x : ℝ) (hu : 0 < u) (hu' : 0 < u') :
-    ∃ s s', (Leaf.scale (fun _ => u) env ⟨true, "unyt_array", [("0", .const (-1))]⟩) = some s
-      ∧ (Leaf.scale (fun _ => u') env ⟨true, "unyt_array", [("0", .const (-1))]⟩) = some s'
+    ∃ s s', (Leaf.scale (fun _ => u) env ⟨true, "unyt_array", [("0", .const (-1))], 1⟩) = some s
+      ∧ (Leaf.scale (fun _ => u') env ⟨true, "unyt_array", [("0", .const (-1))], 1⟩) = some s'
       ∧ s' * (labelScale (fun _ => u / u') [("0", -1)] * x) = s * x := by
   refine C07.labelled_leaf_covariant (fun x : ℝ => 0 < x) real_rpow_laws _ env [("0", -1)] (by simp [Leaf.exponents, Expo.eval])
     (fun _ => u) (fun _ => u') (fun _ => u / u') x _ (fun _ => ⟨hu', div_pos hu hu'⟩) (fun _ => ?_) rfl
